@@ -79,7 +79,7 @@ package cache
 // fails the "implements" obligation of the interface contract.
 //@ props C01 C03 C06 C09 C16
 //@ func Cache.Get
-//@   assigns cache.MemoryCache cache.FileCache cache.EntryMetadata cache.memoryInternalEntry map_map_cache.CacheKey atomic.Int64 ghost:mapsum ghost:fsinode ghost:jsize ghost:jexp ghost:handleinode
+//@   assigns cache.MemoryCache cache.FileCache cache.EntryMetadata cache.memoryInternalEntry map_map_cache.CacheKey atomic.Int64 ghost:mapsum ghost:fsinode ghost:jsize ghost:mbytes ghost:mentries ghost:jexp ghost:handleinode
 //@   ensures [C09] result1 == nil ==> result0 != nil && allocated(result0) && result0.Metadata != nil && allocated(result0.Metadata) && result0.Data != nil && result0.Metadata.Size >= 0
 //@   ensures [C09] result1 != nil ==> result0 == nil
 //@   ensures [C05] result1 == nil ==> !old(allocated(result0))
@@ -89,7 +89,7 @@ package cache
 
 //@ props C01 C06 C09 C16
 //@ func Cache.Cache
-//@   assigns cache.MemoryCache cache.FileCache cache.EntryMetadata cache.memoryInternalEntry map_map_cache.CacheKey atomic.Int64 ghost:mapsum ghost:fsinode ghost:jsize ghost:jexp ghost:handleinode ghost:isize ghost:icontent
+//@   assigns cache.MemoryCache cache.FileCache cache.EntryMetadata cache.memoryInternalEntry map_map_cache.CacheKey atomic.Int64 ghost:mapsum ghost:fsinode ghost:jsize ghost:mbytes ghost:mentries ghost:jexp ghost:handleinode ghost:isize ghost:icontent
 //@   ensures [C09] result1 == nil ==> result0 != nil && allocated(result0) && result0.Metadata != nil && allocated(result0.Metadata) && result0.Data != nil
 //@   ensures [C09] result1 != nil ==> result0 == nil
 //@   ensures [C06] result1 == nil ==> result0.Metadata.Expires == expires && result0.Metadata.Size == old(readlen(data)) && result0.Metadata.Size >= 0 && !result0.Stale
@@ -98,7 +98,7 @@ package cache
 //@ props C06 C09 C16
 //@ func Cache.UpdateMetadata
 //@   ghost callback modifier assigns EntryMetadata_MetadataT_.Expires
-//@   assigns cache.MemoryCache cache.FileCache cache.EntryMetadata cache.memoryInternalEntry map_map_cache.CacheKey atomic.Int64 ghost:mapsum ghost:fsinode ghost:jsize ghost:jexp ghost:callcount
+//@   assigns cache.MemoryCache cache.FileCache cache.EntryMetadata cache.memoryInternalEntry map_map_cache.CacheKey atomic.Int64 ghost:mapsum ghost:fsinode ghost:jsize ghost:mbytes ghost:mentries ghost:jexp ghost:callcount
 //@   requires modifier != nil
 
 // ---------------------------------------------------------------- memory backend
@@ -118,6 +118,8 @@ package cache
 //@   ensures [C12] forall k key :: k != keyid(key) ==> in(c.entries, k) == old(in(c.entries, k)) && c.entries[k] == old(c.entries[k])
 //@   ensures result == nil <==> old(in(c.entries, key))
 //@   ensures c.byteSize.val.v <= old(c.byteSize.val.v)
+//@   ensures [C12] old(mbytes == c.byteSize.val.v) ==> mbytes == c.byteSize.val.v
+//@   ensures [C12] old(mentries == len(c.entries)) ==> mentries == len(c.entries)
 
 //@ props C12 C01 C14 C15 C16
 //@ func MemoryCache.Delete
@@ -125,6 +127,8 @@ package cache
 //@   requires specMemInv(c)
 //@   ensures [C12] specMemInv(c)
 //@   ensures [C01] !in(c.entries, key)
+//@   ensures [C12] old(mbytes == c.byteSize.val.v) ==> mbytes == c.byteSize.val.v
+//@   ensures [C12] old(mentries == len(c.entries)) ==> mentries == len(c.entries)
 
 //@ props C01 C03 C14 C15 C16
 //@ func MemoryCache.Get
@@ -146,8 +150,9 @@ package cache
 //@ fnfield cacheFunctions.removeEntry(key CacheKey) (err error)
 //@   ghost blocks-at 2
 //@   ghost holds shard
-//@   assigns cache.MemoryCache cache.FileCache cache.EntryMetadata cache.memoryInternalEntry map_map_cache.CacheKey atomic.Int64 ghost:mapsum ghost:fsinode ghost:jsize ghost:jexp
+//@   assigns cache.MemoryCache cache.FileCache cache.EntryMetadata cache.memoryInternalEntry map_map_cache.CacheKey atomic.Int64 ghost:mapsum ghost:fsinode ghost:jsize ghost:mbytes ghost:mentries ghost:jexp
 //@   ensures jsize <= old(jsize)
+//@   ensures [C12] old(mbytes == jsize) ==> mbytes == jsize
 
 //@ fnfield cacheFunctions.getCacheSize() (size int64)
 //@   pure
@@ -169,7 +174,7 @@ package cache
 //@   trusted
 //@   ghost callbacks-only
 //@   ghost blocks-at 2
-//@   assigns cache.MemoryCache cache.FileCache cache.EntryMetadata cache.memoryInternalEntry map_map_cache.CacheKey atomic.Int64 ghost:mapsum ghost:fsinode ghost:jsize ghost:jexp
+//@   assigns cache.MemoryCache cache.FileCache cache.EntryMetadata cache.memoryInternalEntry map_map_cache.CacheKey atomic.Int64 ghost:mapsum ghost:fsinode ghost:jsize ghost:mbytes ghost:mentries ghost:jexp
 
 // ---------------------------------------------------------------- memory backend: store
 
@@ -179,6 +184,8 @@ package cache
 // the key was already present (overwrite) and when the source reader fails.
 //@ props C12 C01 C09 C14 C15 C16
 //@ func MemoryCache.cacheInternal
+//@   ghost stable-if mbytes == c.byteSize.val.v
+//@   ghost stable-if mentries == len(c.entries)
 //@   decreases evictIfFull ? 1 : 0
 //@   ghost blocks-at 2
 //@   nopanic
@@ -193,7 +200,9 @@ package cache
 //@   ensures [C05] result1 == nil ==> !old(allocated(result0))
 //@   ensures [C09] result1 == nil ==> allocated(result0) && result0.Metadata != nil && allocated(result0.Metadata) && result0.Data != nil && result0.Metadata.Size == old(readlen(data)) && !result0.Stale
 //@   ensures [C09] result1 != nil ==> result0 == nil
-//@   assigns cache.MemoryCache cache.FileCache cache.EntryMetadata cache.memoryInternalEntry map_map_cache.CacheKey atomic.Int64 ghost:mapsum ghost:fsinode ghost:jsize ghost:jexp ghost:handleinode ghost:isize ghost:icontent
+//@   assigns cache.MemoryCache cache.FileCache cache.EntryMetadata cache.memoryInternalEntry map_map_cache.CacheKey atomic.Int64 ghost:mapsum ghost:fsinode ghost:jsize ghost:mbytes ghost:mentries ghost:jexp ghost:handleinode ghost:isize ghost:icontent
+//@   ensures [C12] old(mbytes == c.byteSize.val.v) ==> mbytes == c.byteSize.val.v
+//@   ensures [C12] old(mentries == len(c.entries)) ==> mentries == len(c.entries)
 
 //@ props C12 C01 C09 C14 C15 C16
 //@ func MemoryCache.Cache
@@ -203,6 +212,8 @@ package cache
 //@   requires c.byteSize.val.v < 4611686018427387904
 //@   ensures [C12] specMemInv(c)
 //@   ensures [C01] result1 == nil ==> in(c.entries, key) && sid(c.entries[key].data) == old(readall(data)) && c.entries[key].meta.Size == old(readlen(data)) && result0 != nil && result0.Metadata == c.entries[key].meta
+//@   ensures [C12] old(mbytes == c.byteSize.val.v) ==> mbytes == c.byteSize.val.v
+//@   ensures [C12] old(mentries == len(c.entries)) ==> mentries == len(c.entries)
 
 // The modifier passed to UpdateMetadata may change the expiry only (every
 // closure passed for it is verified against this frame, see package proxy).
@@ -245,7 +256,9 @@ package cache
 //@   ensures result != nil ==> c.byteSize.val.v == old(c.byteSize.val.v) && fsinode(sid(path)) == old(fsinode(sid(path)))
 //@   ensures forall p int :: p != sid(path) ==> fsinode(p) == old(fsinode(p))
 //@   ensures forall i int :: isize(i) == old(isize(i)) && icontent(i) == old(icontent(i))
-//@   assigns atomic.Int64 ghost:fsinode
+//@   assigns atomic.Int64 ghost:fsinode ghost:mbytes ghost:mentries
+//@   ensures [C12] (result == nil && old(fsexists(sid(path))) ==> mbytes == old(mbytes) - old(fssize(sid(path)))) && (!(result == nil && old(fsexists(sid(path)))) ==> mbytes == old(mbytes))
+//@   ensures [C12] (result == nil && old(fsexists(sid(path))) ==> mentries == old(mentries) - 1) && (!(result == nil && old(fsexists(sid(path)))) ==> mentries == old(mentries))
 
 //@ props C12 C01 C14 C15 C16
 //@ func FileCache.ensureRemove
@@ -255,6 +268,8 @@ package cache
 //@   ensures [C12] specFileInv(c)
 //@   ensures result == nil ==> !in(c.entriesMetadata, key)
 //@   ensures c.byteSize.val.v <= old(c.byteSize.val.v)
+//@   ensures [C12] old(mbytes == c.byteSize.val.v) ==> mbytes == c.byteSize.val.v
+//@   ensures [C12] old(mentries == len(c.entriesMetadata)) ==> mentries == len(c.entriesMetadata)
 
 //@ props C12 C01 C14 C15 C16
 //@ func FileCache.Delete
@@ -262,6 +277,8 @@ package cache
 //@   requires specFileInv(c) && c.byteSize.val.v < 4611686018427387904
 //@   ensures [C12] specFileInv(c)
 //@   ensures result == nil ==> !in(c.entriesMetadata, key)
+//@   ensures [C12] old(mbytes == c.byteSize.val.v) ==> mbytes == c.byteSize.val.v
+//@   ensures [C12] old(mentries == len(c.entriesMetadata)) ==> mentries == len(c.entriesMetadata)
 
 // A handle handed out by Get reads the content the entry's file had at that
 // moment; replacing or removing the entry later does not change what an already
@@ -284,6 +301,8 @@ package cache
 // are never written: a store creates a new file and renames it into place.
 //@ props C12 C01 C09 C14 C15 C16
 //@ func FileCache.Cache
+//@   ghost stable-if mbytes == c.byteSize.val.v
+//@   ghost stable-if mentries == len(c.entriesMetadata)
 //@   implements Cache.Cache
 //@   nopanic
 //@   ghost stable specFileInv(c) && c.janitor != nil && c.maxCacheSize.val != nil && c.byteSize.val.v < 4611686018427387904
@@ -291,6 +310,8 @@ package cache
 //@   ensures [C12] specFileInv(c)
 //@   ensures [C01] result1 == nil ==> in(c.entriesMetadata, key) && fscontent(specFilePath(c, keyid(key))) == old(readall(data)) && c.entriesMetadata[key].Size == old(readlen(data)) && c.entriesMetadata[key].Expires == expires && result0 != nil && result0.Metadata == c.entriesMetadata[key] && handlecontent(result0.Data) == old(readall(data))
 //@   ensures [C01] forall h int :: old(allocated(h)) && old(handleinode(h)) != 0 ==> handleinode(h) == old(handleinode(h)) && icontent(handleinode(h)) == old(icontent(handleinode(h))) && isize(handleinode(h)) == old(isize(handleinode(h)))
+//@   ensures [C12] old(mbytes == c.byteSize.val.v) ==> mbytes == c.byteSize.val.v
+//@   ensures [C12] old(mentries == len(c.entriesMetadata)) ==> mentries == len(c.entriesMetadata)
 
 //@ props C12 C06 C14 C15 C16
 //@ func FileCache.UpdateMetadata
@@ -324,13 +345,14 @@ package cache
 // evict(max): removes candidates in order of decreasing priority while the size
 // is above 80% of max; it stops as soon as the target is reached, never blocks
 // on a shard lock (TryLock only) and touches the backend through callbacks only.
-//@ props C13 C14 C15 C16
+//@ props C13 C14 C15 C16 C12
 //@ func cacheJanitor.evict
 //@   nopanic
+//@   ensures [C12] mbytes == jsize
 //@   ghost callbacks-only
 //@   ghost blocks-at 2
 //@   ghost callsite-requires [C13] removeEntry jsize > targetSize
-//@   assigns cache.MemoryCache cache.FileCache cache.EntryMetadata cache.memoryInternalEntry map_map_cache.CacheKey atomic.Int64 ghost:mapsum ghost:fsinode ghost:jsize ghost:jexp
+//@   assigns cache.MemoryCache cache.FileCache cache.EntryMetadata cache.memoryInternalEntry map_map_cache.CacheKey atomic.Int64 ghost:mapsum ghost:fsinode ghost:jsize ghost:mbytes ghost:mentries ghost:jexp
 //@   ensures [C13] jsize <= old(jsize)
 //@   ensures [C13] old(jsize) * 5 <= maxCacheBytes * 4 && maxCacheBytes >= 0 && maxCacheBytes <= 1125899906842624 ==> jsize == old(jsize)
 //@   loop 1 invariant forall i int :: 0 <= i && i < len(candidates) ==> candidates[i].meta != nil && allocated(candidates[i].meta)
@@ -352,20 +374,22 @@ package cache
 //@ props C13 C14 C16
 //@ func cacheJanitor.ensureCacheSize
 //@   nopanic
-//@   assigns cache.MemoryCache cache.FileCache cache.EntryMetadata cache.memoryInternalEntry map_map_cache.CacheKey atomic.Int64 ghost:mapsum ghost:fsinode ghost:jsize ghost:jexp
+//@   assigns cache.MemoryCache cache.FileCache cache.EntryMetadata cache.memoryInternalEntry map_map_cache.CacheKey atomic.Int64 ghost:mapsum ghost:fsinode ghost:jsize ghost:mbytes ghost:mentries ghost:jexp
 //@   requires j.cfg != nil && aset(j.cfg.Cache.MaxCacheSize.value)
 //@   ghost callsite-requires getCacheSize true
 //@   ghost callsite-requires [C13] evict arg_maxCacheBytes == cfgval(j.cfg.Cache.MaxCacheSize)
 
 // Each cleanup cycle removes exactly the expired entries: a key is handed to
 // removeEntry only if the entry stored for it NOW (under its shard lock) is expired.
-//@ props C13 C14 C15 C16
+//@ props C13 C14 C15 C16 C12
 //@ func cacheJanitor.cleanExpiredEntries
 //@   nopanic
-//@   assigns cache.MemoryCache cache.FileCache cache.EntryMetadata cache.memoryInternalEntry map_map_cache.CacheKey atomic.Int64 ghost:mapsum ghost:fsinode ghost:jsize ghost:jexp
+//@   assigns cache.MemoryCache cache.FileCache cache.EntryMetadata cache.memoryInternalEntry map_map_cache.CacheKey atomic.Int64 ghost:mapsum ghost:fsinode ghost:jsize ghost:mbytes ghost:mentries ghost:jexp
 //@   ghost callsite-requires [C13] removeEntry jexp(arg_key) < now
 //@   loop 1 invariant len(keysToRemove) >= 0
 //@   loop 2 invariant rangeidx <= len(keysToRemove)
+// After a cycle the reported size is the counter.
+//@   ensures [C12] mbytes == jsize
 
 // ---------------------------------------------------------------- constructors and the closures they install
 
@@ -401,19 +425,25 @@ package cache
 // and keep the backend's invariant (premise of the callback rule).
 //@ props C12 C13 C14 C15 C16
 //@ func NewMemoryCache$4
+//@   ghost jsize-is c.byteSize.val.v
 //@   ghost blocks-at 2
 //@   implements cacheFunctions.removeEntry
 //@   nopanic
 //@   requires specMemInv(c) && c.byteSize.val.v < 4611686018427387904
 //@   ensures [C12] specMemInv(c) && c.byteSize.val.v <= old(c.byteSize.val.v)
+//@   ensures [C12] old(mbytes == c.byteSize.val.v) ==> mbytes == c.byteSize.val.v
+//@   ensures [C12] old(mentries == len(c.entries)) ==> mentries == len(c.entries)
 
 //@ props C12 C13 C14 C15 C16
 //@ func NewFileCache$5
+//@   ghost jsize-is c.byteSize.val.v
 //@   ghost blocks-at 2
 //@   implements cacheFunctions.removeEntry
 //@   nopanic
 //@   requires specFileInv(c) && c.byteSize.val.v < 4611686018427387904
 //@   ensures [C12] specFileInv(c) && c.byteSize.val.v <= old(c.byteSize.val.v)
+//@   ensures [C12] old(mbytes == c.byteSize.val.v) ==> mbytes == c.byteSize.val.v
+//@   ensures [C12] old(mentries == len(c.entriesMetadata)) ==> mentries == len(c.entriesMetadata)
 
 //@ props C12 C16
 //@ func NewMemoryCache$5
